@@ -15,6 +15,7 @@ type c08Req struct {
 	Spec      ReqSpec
 	Chunked   []int // h1: chunk sizes (nil: Content-Length)
 	DataSizes []int // h2: DATA frame sizes
+	Pads      []int // h2: padding of the i-th DATA frame counted from the END of the body (-1: none)
 	Trailers  [][2]string
 	HopNames  []string // header names nominated by Connection (must not arrive)
 	Stream    uint32
@@ -233,6 +234,11 @@ func drawC08(t *rapid.T) *Case {
 				rq.Stream = id
 				ids = append(ids, id)
 				rq.DataSizes = drawPieces(t, len(rq.Spec.Body), "dsz")
+				if drawBool(t, "datapad", 35) {
+					for i := 0; i < 3; i++ {
+						rq.Pads = append(rq.Pads, rapid.IntRange(-1, 40).Draw(t, "padlen"))
+					}
+				}
 				fs := c08H2Frames(enc, id, rq)
 				// write in one or several TLS writes
 				cut := rapid.IntRange(1, len(fs)).Draw(t, "wcut")
@@ -315,20 +321,31 @@ func c08H2Frames(enc *HEnc, id uint32, rq *c08Req) []Frame {
 	fs := HeadersFrames(id, enc.Block(fields), noMore, nil, -1, nil)
 	rest := r.Body
 	i := 0
+	var sizes []int
 	for len(rest) > 0 {
-		k := 16384
+		k := 16000
 		if i < len(rq.DataSizes) {
 			k = rq.DataSizes[i]
 		}
 		i++
-		if k > 16384 {
-			k = 16384
+		if k > 16000 {
+			k = 16000
 		}
 		if k > len(rest) {
 			k = len(rest)
 		}
-		last := k == len(rest) && len(rq.Trailers) == 0
-		fs = append(fs, DataFrame(id, rest[:k], last, -1))
+		sizes = append(sizes, k)
+		rest = rest[k:]
+	}
+	rest = r.Body
+	for j, k := range sizes {
+		fromEnd := len(sizes) - 1 - j
+		pad := -1
+		if fromEnd < len(rq.Pads) {
+			pad = rq.Pads[fromEnd] // also the last frames of the body may be padded (even with 0 bytes)
+		}
+		last := j == len(sizes)-1 && len(rq.Trailers) == 0
+		fs = append(fs, DataFrame(id, rest[:k], last, pad))
 		rest = rest[k:]
 	}
 	if len(rq.Trailers) > 0 {
